@@ -112,7 +112,11 @@ func GetPosition(ast MalType) *Position {
 func NewLispError(err MalType, ast MalType) LispError {
 	switch err := err.(type) {
 	case LispError:
-		err.cursor = GetPosition(ast)
+		// an error that already carries a position keeps it: it points at the form that failed,
+		// whereas ast is only the form through which the failure is being reported
+		if err.cursor == nil {
+			err.cursor = GetPosition(ast)
+		}
 		return err
 	default:
 		return LispError{
